@@ -70,7 +70,14 @@ func (codec *wsCodec) ReadMessage() (*jsonrpc2.Message, error) {
 	if err != nil {
 		return nil, err
 	}
-	return codec.inner.ReadMessage()
+	msg, err := codec.inner.ReadMessage()
+	// Skip whatever the decoder left unread of this websocket message (the
+	// trailing newline, remaining fragments), so that the next read starts at
+	// a frame header.
+	if discardErr := codec.r.Discard(); err == nil && discardErr != nil {
+		return nil, discardErr
+	}
+	return msg, err
 }
 
 func (codec *wsCodec) WriteMessage(msg *jsonrpc2.Message) error {
